@@ -780,3 +780,505 @@ func (wd *zzvWorld) lookup(tbl string, q json.RawMessage, cv int) (zzvEntry, boo
 	}
 	panic("zzv: lookup table " + tbl)
 }
+
+// ---------------------------------------------------------------------------------- spec -> code: graph walk
+
+type zzvAlt struct {
+	Res json.RawMessage `json:"res"`
+	T   int             `json:"t"`
+}
+type zzvGroup struct {
+	A    zzvAct   `json:"a"`
+	Alts []zzvAlt `json:"alts"`
+}
+type zzvQ struct {
+	Q  json.RawMessage `json:"q"`
+	Ok []zzvEntry      `json:"ok"`
+}
+type zzvLk struct {
+	Cidr []zzvQ `json:"cidr"`
+	Dom  []zzvQ `json:"dom"`
+	Fwd  []zzvQ `json:"fwd"`
+	Agt  []zzvQ `json:"agt"`
+}
+type zzvGraph struct {
+	Name     string       `json:"name"`
+	W        int          `json:"w"`
+	Agents   []string     `json:"agents"`
+	OrigHasL bool         `json:"orig_has_l"`
+	CaseVars []int        `json:"casevars"`
+	Nodes    []zzvState   `json:"nodes"`
+	Init     int          `json:"init"`
+	Out      [][]zzvGroup `json:"out"`
+	Lk       []zzvLk      `json:"lk"`
+}
+type zzvWalkIn struct {
+	Graphs []zzvGraph `json:"graphs"`
+	MaxLen int        `json:"maxlen"`
+}
+
+func (g *zzvGraph) queries(n int, tbl string) []zzvQ {
+	switch tbl {
+	case "cidr":
+		return g.Lk[n].Cidr
+	case "dom":
+		return g.Lk[n].Dom
+	case "fwd":
+		return g.Lk[n].Fwd
+	}
+	return g.Lk[n].Agt
+}
+
+// checkLookups looks up every query of node n on the real manager and compares with the acceptable sets.
+func zzvCheckLookups(wd *zzvWorld, g *zzvGraph, n int, rep func(rec map[string]any)) (done int) {
+	for _, tbl := range []string{"cidr", "dom", "fwd", "agt"} {
+		for _, q := range g.queries(n, tbl) {
+			cvs := []int{0}
+			if tbl == "dom" {
+				cvs = []int{0, 1, 2}
+			}
+			for _, cv := range cvs {
+				e, hit, text := wd.lookup(tbl, q.Q, cv)
+				done++
+				ok := false
+				if !hit {
+					ok = len(q.Ok) == 0
+				} else {
+					for _, x := range q.Ok {
+						if zzvEntryStr(tbl, x, true) == zzvEntryStr(tbl, e, true) {
+							ok = true
+						}
+					}
+				}
+				if !ok {
+					real := "nothing"
+					if hit {
+						real = zzvEntryStr(tbl, e, true)
+					}
+					rep(map[string]any{"graph": g.Name, "node": n, "tbl": tbl, "q": q.Q, "cv": cv, "text": text, "real": real,
+						"acceptable": zzvCanonEntries(tbl, q.Ok), "state": zzvCanonState(&g.Nodes[n])})
+				}
+			}
+		}
+	}
+	return
+}
+
+func TestZZVRouteWalk(t *testing.T) {
+	var in zzvWalkIn
+	zzvLoad(t, "ZZV_IN", &in)
+	if in.MaxLen == 0 {
+		in.MaxLen = 60
+	}
+	rng := mrand.New(mrand.NewSource(zzvSeed()))
+	for gi := range in.Graphs {
+		g := &in.Graphs[gi]
+		canon := make([]string, len(g.Nodes))
+		for i := range g.Nodes {
+			canon[i] = zzvCanonState(&g.Nodes[i])
+		}
+		covered := make([][]bool, len(g.Out))
+		total := 0
+		for i := range g.Out {
+			covered[i] = make([]bool, len(g.Out[i]))
+			total += len(g.Out[i])
+		}
+		remaining, budget := total, 40*total+2000
+		exhibited := map[[3]int]bool{}
+		steps, walks, mism, lkmism, lookups := 0, 0, 0, 0, 0
+		var sample []any
+		// first group on a shortest route from `from` to a node that still has an uncovered group
+		bfs := func(from int) int {
+			type pred struct{ node, first int }
+			seen := map[int]int{from: -1} // node -> first group index taken at `from`
+			q := []int{from}
+			for len(q) > 0 {
+				var nq []int
+				for _, u := range q {
+					if u != from {
+						for j := range g.Out[u] {
+							if !covered[u][j] {
+								return seen[u]
+							}
+						}
+					}
+					for j, grp := range g.Out[u] {
+						for _, alt := range grp.Alts {
+							if _, ok := seen[alt.T]; !ok {
+								f := seen[u]
+								if u == from {
+									f = j
+								}
+								seen[alt.T] = f
+								nq = append(nq, alt.T)
+							}
+						}
+					}
+				}
+				q = nq
+			}
+			return -1
+		}
+		stuck := false
+		for remaining > 0 && budget > 0 && !stuck {
+			walks++
+			wd := zzvNewWorld(rng, g.W, g.Agents, !g.OrigHasL && rng.Intn(2) == 0)
+			cur := g.Init
+			if c := zzvCanonState(wd.state()); c != canon[cur] {
+				t.Fatalf("graph %s: a fresh manager does not project to the initial state: %s", g.Name, c)
+			}
+			var trail []any
+			for n := 0; n < in.MaxLen && budget > 0; n++ {
+				gidx := -1
+				for j := range g.Out[cur] {
+					if !covered[cur][j] {
+						gidx = j
+						break
+					}
+				}
+				if gidx < 0 {
+					gidx = bfs(cur)
+					if gidx < 0 {
+						if n == 0 {
+							stuck = true
+						}
+						break
+					}
+				}
+				grp := &g.Out[cur][gidx]
+				res := wd.apply(&grp.A)
+				st := wd.state()
+				c := zzvCanonState(st)
+				steps++
+				budget--
+				if !covered[cur][gidx] {
+					covered[cur][gidx] = true
+					remaining--
+				}
+				trail = append(trail, grp.A)
+				next := -1
+				for ai, alt := range grp.Alts {
+					if strings.TrimSpace(string(alt.Res)) == res && canon[alt.T] == c {
+						next = alt.T
+						exhibited[[3]int{cur, gidx, ai}] = true
+						break
+					}
+				}
+				if next < 0 {
+					mism++
+					var alts []any
+					for _, alt := range grp.Alts {
+						alts = append(alts, map[string]any{"res": alt.Res, "t": canon[alt.T]})
+					}
+					if mism <= 40 {
+						zzvEmit("mismatch", map[string]any{"graph": g.Name, "node": cur, "s": canon[cur], "a": grp.A, "real_res": res,
+							"real_t": c, "spec": alts, "trail": trail})
+					}
+					break
+				}
+				cur = next
+				lookups += zzvCheckLookups(wd, g, cur, func(rec map[string]any) {
+					lkmism++
+					if lkmism <= 40 {
+						rec["trail"] = trail
+						zzvEmit("lkmismatch", rec)
+					}
+				})
+			}
+			if len(sample) < 2 && len(trail) > 3 {
+				sample = append(sample, trail[:minIntRT(len(trail), 8)])
+			}
+		}
+		edges := 0
+		for i := range g.Out {
+			for j := range g.Out[i] {
+				edges += len(g.Out[i][j].Alts)
+			}
+		}
+		zzvEmit("summary", map[string]any{"graph": g.Name, "nodes": len(g.Nodes), "groups": total, "uncovered": remaining,
+			"edges": edges, "edges_exhibited": len(exhibited), "steps": steps, "walks": walks, "mismatches": mism,
+			"lkmismatches": lkmism, "lookups": lookups, "sample": sample})
+	}
+}
+
+func minIntRT(a, b int) int {
+	if a < b {
+		return a
+	}
+	return b
+}
+
+// ---------------------------------------------------------------------------------- code -> spec: random histories
+
+type zzvTraceW struct {
+	w   *bufio.Writer
+	n   int
+	err error
+}
+
+func (tw *zzvTraceW) ev(rec map[string]any) {
+	b, err := json.Marshal(rec)
+	if err != nil && tw.err == nil {
+		tw.err = err
+	}
+	tw.w.Write(b)
+	tw.w.WriteByte('\n')
+	tw.n++
+}
+
+func TestZZVRouteTrace(t *testing.T) {
+	ntraces := zzvEnvInt("ZZV_TRACES", 20)
+	nops := zzvEnvInt("ZZV_OPS", 200)
+	tables := strings.Split(os.Getenv("ZZV_TABLES"), ",")
+	if os.Getenv("ZZV_TABLES") == "" {
+		tables = []string{"cidr", "dom", "fwd", "agt"}
+	}
+	corrupt := zzvEnvInt("ZZV_CORRUPT", 0) // self-test of the binding: falsify one logged field of the n-th event
+	fn := os.Getenv("ZZV_OUT")
+	f, err := os.Create(fn)
+	if err != nil {
+		t.Fatal(err)
+	}
+	defer f.Close()
+	tw := &zzvTraceW{w: bufio.NewWriterSize(f, 1<<20)}
+	defer tw.w.Flush()
+	rng := mrand.New(mrand.NewSource(zzvSeed()*7919 + 11))
+	const W = 3
+	agents := []string{"a", "b", "c", "p", "q", "r"}
+	peers := []string{"p", "q", "r"}
+	metrics := []int{0, 0, 1, 1, 2, 3, 7, 300, 65000}
+	fwdKeys := []string{"web", "WEB", "db", "cache-1", "Web"}
+	agtKeys := []string{"a", "b", "c", "p"}
+	bases := [][]string{{"x", "com"}, {"y", "org"}, {"x-1", "com"}}
+	counts := map[string]int{}
+	hits, misses, tie := 0, 0, 0
+	var sample []any
+	pick := func(xs []string) string { return xs[rng.Intn(len(xs))] }
+	for tr := 0; tr < ntraces; tr++ {
+		bigSeq := rng.Intn(2) == 0
+		wd := zzvNewWorld(rng, W, agents, bigSeq)
+		tw.ev(map[string]any{"ev": "Reset", "trace": tr})
+		// this trace's universe
+		var pfx []zzvCidrKey
+		for len(pfx) < 9 {
+			fam := "4"
+			if rng.Intn(3) == 0 {
+				fam = "6"
+			}
+			k := zzvCidrKey{Fam: fam, Bits: []int{}}
+			for i, n := 0, rng.Intn(W+1); i < n; i++ {
+				// mostly symbol 0: nested chains
+				s := 0
+				if rng.Intn(3) == 0 {
+					s = 1
+				}
+				k.Bits = append(k.Bits, s)
+			}
+			pfx = append(pfx, k)
+		}
+		var names [][]string
+		for _, b := range bases {
+			names = append(names, b)
+			for _, l := range []string{"a", "b"} {
+				n1 := append([]string{l}, b...)
+				names = append(names, n1)
+				for _, l2 := range []string{"a", "b"} {
+					names = append(names, append([]string{l2}, n1...))
+				}
+			}
+		}
+		names = append(names, []string{"com"}, []string{"z", "com"})
+		randKey := func(tbl string) any {
+			switch tbl {
+			case "cidr":
+				return pfx[rng.Intn(len(pfx))]
+			case "dom":
+				n := names[rng.Intn(len(names))]
+				for len(n) > 3 {
+					n = n[1:]
+				}
+				return zzvDomKey{Wild: rng.Intn(2) == 0, Name: n}
+			case "fwd":
+				return pick(fwdKeys)
+			}
+			return pick(agtKeys)
+		}
+		stOf := func(tbl string) []zzvEntry { return wd.table(tbl) }
+		for op := 0; op < nops; op++ {
+			tbl := tables[rng.Intn(len(tables))]
+			r := rng.Intn(100)
+			var rec map[string]any
+			switch {
+			case r < 42: // advertisement
+				o, p := pick(agents), pick(peers)
+				if !bigSeq && rng.Intn(25) == 0 {
+					o = "L"
+				}
+				if tbl == "agt" && rng.Intn(4) > 0 {
+					// normally the advertised agent is the origin
+				}
+				var path []string
+				switch x := rng.Intn(20); {
+				case x == 0:
+					path = []string{}
+				case x == 1:
+					path = []string{p, "L", o}
+				case x == 2:
+					path = []string{p, pick(agents), "L"}
+				case x < 6:
+					path = []string{p, pick(agents), o}
+				case o == p:
+					path = []string{p}
+				default:
+					path = []string{p, o}
+				}
+				key := randKey(tbl)
+				if tbl == "agt" && rng.Intn(4) > 0 {
+					key = o
+					if o == "L" {
+						key = "a"
+					}
+				}
+				a := &zzvAct{Act: "Advert", Tbl: tbl, Key: zzvRaw(key), Origin: o, Nh: p, M: metrics[rng.Intn(len(metrics))],
+					Seq: rng.Intn(5), Path: path, Cv: 0}
+				if tbl == "dom" {
+					a.Cv = rng.Intn(3)
+				}
+				res := wd.apply(a)
+				rec = map[string]any{"ev": "Advert", "tbl": tbl, "key": key, "origin": o, "nh": p, "m": a.M, "seq": a.Seq,
+					"path": path, "cv": a.Cv, "res": res == "true", "st": stOf(tbl)}
+			case r < 50: // withdrawal / removal
+				o := pick(append(agents, "L"))
+				key := randKey(tbl)
+				if es := stOf(tbl); len(es) > 0 && rng.Intn(3) > 0 { // mostly an existing entry
+					e := es[rng.Intn(len(es))]
+					o = e.Origin
+					var kv any
+					json.Unmarshal(e.Key, &kv)
+					key = kv
+				}
+				a := &zzvAct{Act: "Withdraw", Tbl: tbl, Key: zzvRaw(key), Origin: o}
+				res := wd.apply(a)
+				rec = map[string]any{"ev": "Withdraw", "tbl": tbl, "key": key, "origin": o, "res": res == "true", "st": stOf(tbl)}
+			case r < 54:
+				p := pick(peers)
+				var n int
+				fmt.Sscan(wd.apply(&zzvAct{Act: "Disconnect", Tbl: tbl, P: p}), &n)
+				rec = map[string]any{"ev": "Disconnect", "tbl": tbl, "p": p, "res": n, "st": stOf(tbl)}
+			case r < 57:
+				wd.apply(&zzvAct{Act: "AgeAll"})
+				rec = map[string]any{"ev": "AgeAll", "cidr": stOf("cidr"), "dom": stOf("dom"), "fwd": stOf("fwd"), "agt": stOf("agt")}
+			case r < 62:
+				var n int
+				fmt.Sscan(wd.apply(&zzvAct{Act: "Cleanup", Tbl: tbl}), &n)
+				rec = map[string]any{"ev": "Cleanup", "tbl": tbl, "res": n, "st": stOf(tbl)}
+			case r < 74: // local routes
+				m := []int{0, 0, 1, 5}[rng.Intn(4)]
+				switch tbl {
+				case "cidr":
+					key := pfx[rng.Intn(len(pfx))]
+					act := []string{"AddLocalCidr", "AddLocalCidr", "AddDynamic", "AddDynamic", "RemoveLocalCidr", "RemoveDynamic"}[rng.Intn(6)]
+					res := wd.apply(&zzvAct{Act: act, Key: zzvRaw(key), M: m})
+					var rv any
+					json.Unmarshal([]byte(res), &rv)
+					s := wd.state()
+					rec = map[string]any{"ev": act, "key": key, "m": m, "res": rv, "st": s.Cidr, "lseq": s.Lseq, "lcidr": s.Lcidr, "ldyn": s.Ldyn}
+				case "dom":
+					key := randKey("dom")
+					cv := rng.Intn(3)
+					act := []string{"AddLocalDom", "AddLocalDom", "RemoveLocalDom"}[rng.Intn(3)]
+					if act == "RemoveLocalDom" && rng.Intn(3) > 0 {
+						if s := wd.state(); len(s.Ldom) > 0 {
+							l := s.Ldom[rng.Intn(len(s.Ldom))]
+							var k zzvDomKey
+							json.Unmarshal(l.Key, &k)
+							key, cv = k, *l.Cv
+						}
+					}
+					res := wd.apply(&zzvAct{Act: act, Key: zzvRaw(key), M: m, Cv: cv})
+					s := wd.state()
+					rec = map[string]any{"ev": act, "key": key, "cv": cv, "m": m, "res": res == "true", "st": s.Dom, "lseq": s.Lseq, "ldom": s.Ldom}
+				case "fwd":
+					key := pick(fwdKeys)
+					act := []string{"AddLocalFwd", "AddLocalFwd", "RemoveLocalFwd"}[rng.Intn(3)]
+					res := wd.apply(&zzvAct{Act: act, Key: zzvRaw(key), M: m})
+					s := wd.state()
+					rec = map[string]any{"ev": act, "key": key, "m": m, "res": res == "true", "st": s.Fwd, "lseq": s.Lseq, "lfwd": s.Lfwd}
+				default:
+					continue
+				}
+			default: // lookup
+				var q any
+				cv := 0
+				switch tbl {
+				case "cidr":
+					a := zzvAddr{Form: []string{"4", "4", "m", "6"}[rng.Intn(4)], Bits: []int{}}
+					for i := 0; i < W; i++ {
+						s := 0
+						switch x := rng.Intn(10); {
+						case x < 3:
+							s = 1
+						case x == 3:
+							s = 2
+						}
+						a.Bits = append(a.Bits, s)
+					}
+					q = a
+				case "dom":
+					q = names[rng.Intn(len(names))]
+					cv = rng.Intn(3)
+				case "fwd":
+					q = pick(append(fwdKeys, "nope"))
+				case "agt":
+					q = pick(agents)
+				}
+				e, hit, _ := wd.lookup(tbl, zzvRaw(q), cv)
+				if hit {
+					hits++
+					// how often did the lookup have to break a metric tie or choose among several candidates
+					n := 0
+					for _, x := range stOf(tbl) {
+						if string(x.Key) == string(e.Key) {
+							n++
+						}
+					}
+					if n > 1 {
+						tie++
+					}
+				} else {
+					misses++
+					e = zzvEntry{Key: zzvRaw(""), Path: []string{}}
+				}
+				rec = map[string]any{"ev": "Lookup", "tbl": tbl, "q": q, "cv": cv, "hit": hit,
+					"res": map[string]any{"key": e.Key, "origin": e.Origin, "nh": e.Nh, "metric": e.Metric, "seq": e.Seq}}
+			}
+			counts[rec["ev"].(string)]++
+			if corrupt > 0 && tw.n == corrupt {
+				// falsify the event: a different result for calls, a different metric for lookups
+				switch v := rec["res"].(type) {
+				case bool:
+					rec["res"] = !v
+				case int:
+					rec["res"] = v + 1
+				case map[string]any:
+					v["metric"] = v["metric"].(int) + 1
+					rec["hit"] = true
+				default:
+					rec["ev"] = "Cleanup"
+					rec["tbl"] = "cidr"
+					rec["res"] = 77
+					rec["st"] = []zzvEntry{}
+				}
+			}
+			tw.ev(rec)
+			if tr == 0 && op < 6 {
+				sample = append(sample, rec)
+			}
+		}
+	}
+	if tw.err != nil {
+		t.Fatal(tw.err)
+	}
+	zzvEmit("summary", map[string]any{"traces": ntraces, "events": tw.n, "counts": counts, "lookup_hits": hits,
+		"lookup_misses": misses, "lookup_multi_candidate": tie, "sample": sample})
+}
